@@ -18,6 +18,18 @@
                                      0 matrix over the column-major interop view of the transposed
                                      2-d tensor, 1 tensor over the dimension-swapped TensorAccess,
                                      3 detached constants copy with relabelled indexes
+     (8 kind params srcs)            generic source views (Container.OSelect with the position map
+                                     Model/ContainerViews.view_map kind params): a container built
+                                     by from_existing over a range / mask / reverse / rename /
+                                     access / transpose / index+expansion / chain / stack+index
+                                     view of the record container(s) srcs, or over a quadrant of a
+                                     partitioned record matrix ; params: ((n ...) ...)
+     (9 tensor shape colmajor take (e ...) a)
+                                     from_iters::<N>(shape, iter_as_records (row / column major)
+                                     .take(take).map(|x| [e1 x, .., eN x])), N = 1..4 (for N = 1 also
+                                     from_iter); adds N containers; when an output fails the
+                                     error payload is the list of per-output codes (0
+                                     InconsistentHistory, 1 Empty, 2 Shape, 3 this output is Ok)
    scalar closures e: (0) the element | (1 c) constant | (2 e) Record::constant(e.number) |
      (3 code c e) | (4 code e1 e2) | (5 e1 e2) e1 at the first index else e2 |
      (6) a clone of a variable of ANOTHER WengertList (number 1)
@@ -27,7 +39,7 @@
      E the element-by-element Record computation: per output (((v hist i) ...) (derivs ...))
        with derivs per element: () for a constant record, else ((per input (d ...))). *)
 From Coq Require Import List ZArith NArith Bool.
-From EasyML Require Import Base.Sx Model.Num Model.Tape Model.Container.
+From EasyML Require Import Base.Sx Model.Num Model.Tape Model.Container Model.ContainerViews.
 Import ListNotations.
 
 Section Run.
@@ -91,6 +103,18 @@ Definition dcop (D : nat) (s : sx) : option (cop R) :=
       | Some e1, Some e2, Some a => Some (OFromIters2 e1 e2 a) | _, _, _ => None end
   | SL [SZ 7%Z; kind; a] =>
       match dnat kind, dnat a with Some kind, Some a => Some (OView kind a) | _, _ => None end
+  | SL [SZ 8%Z; kind; params; srcs] =>
+      match dnat kind, dlist (dlist dnat) params, dlist dnat srcs with
+      | Some kind, Some params, Some srcs => Some (OSelect (view_map kind params) srcs)
+      | _, _, _ => None
+      end
+  | SL [SZ 9%Z; tensor; sh; colmajor; take; es; a] =>
+      match dbool tensor, dshape06 sh, dbool colmajor, dnat take, dlist (dsexpr 12) es, dnat a with
+      | Some tensor, Some sh, Some cm, Some take, Some es, Some a =>
+          if (tensor && negb (Nat.eqb (length sh) D)) || Nat.ltb 4 (length es) then None
+          else Some (OCollect tensor sh cm take es a)
+      | _, _, _, _, _, _ => None
+      end
   | _ => None
   end.
 
